@@ -17,4 +17,7 @@ def assumptions_for(prop, units):
     for u in units:
         if u.stubs: trusted.append(f'unit {u.name}: declaration-only stubs {u.stubs} stand for classes outside the verified files (fields/types only, no behaviour)')
         if u.note: trusted.append(f'unit {u.name}: {u.note}')
+        if getattr(u, 'builtins', None):
+            from . import builtins as B
+            for b in u.builtins: trusted.append(f'unit {u.name}: {B.ASSUMPTION[b]}')
     return dict(assumptions=COMMON + PER_PROP.get(prop, []), trusted=trusted + ['pyvc VC generator', 'z3-new 5.1.0', 'cvc5 1.0.3'])
